@@ -1,7 +1,10 @@
 (* C06 driver: one case per line
      <id> <op> <args> ...
-   prints "M <id> tok..." (mechanism model) and "S <id> tok..." (specification);
-   the token formats are documented in harness/c06_types.c. *)
+   prints "M <id> tok..." (mechanism model, TypesModel.run from reg0) and
+   "S <id> tok..." (abstract specification, RegistrySpec.srun from sreg0: two finite
+   maps and four counters, its own observation type; refusals carry no error kind
+   and a sweep has no mechanism part, which is what props/c06.py:project leaves of
+   an implementation token);  the token formats are documented in harness/c06_types.c. *)
 let rec z_of_int i = if i = 0 then Z0 else if i > 0 then Zpos (pos_of_int i) else Zneg (pos_of_int (-i))
 let int_of_z z = match z with Z0 -> 0 | Zpos p -> int_of_pos p | Zneg p -> - (int_of_pos p)
 
@@ -123,6 +126,34 @@ let show o = match o with
       (int_of_nat ip) (int_of_nat dp) (ul mu) (ul gu)
   | OFault -> "F"
 
+(* ---- observations of the specification (RegistrySpec.sout) ---- *)
+let show_sentry id n t =
+  Printf.sprintf "E:%x:%s:%s" (int_of_n id) (tok_of_name n)
+    (match show_traits (Some t) with s -> String.sub s 2 (String.length s - 2))
+let show_s o = match o with
+  | SId i -> Printf.sprintf "I:%x" (int_of_n i)
+  | SEntry (id, n, t) -> show_sentry id n t
+  | SRefused -> "R"
+  | STraits t -> show_traits t
+  | SAlias (i, e) -> Printf.sprintf "A:%x:%s" (int_of_n i) (match e with None -> "-" | Some k -> string_of_int (int_of_nat k))
+  | SNum z -> Printf.sprintf "V:%d" (int_of_z z)
+  | SSweep (tr, rows) ->
+    let items = List.mapi (fun i t -> (i, show_traits ~id:i t)) tr in
+    let names = List.map (fun w -> Printf.sprintf "%x=%s>%s/%s" (int_of_n w.sr_id) (show_sentry w.sr_type w.sr_name w.sr_info)
+                                     (show_optid w.sr_full) (show_optid w.sr_exact)) rows in
+    Printf.sprintf "W:%s|X:%s" (rle items) (String.concat "," names)
+  | SFault -> "F"
+
+let show_rep_s outs =
+  let ids = List.filter_map (fun o -> match o with SId i -> Some (int_of_n i) | SEntry (i, _, _) -> Some (int_of_n i) | _ -> None) outs in
+  let refs = List.filter (fun o -> match o with SId _ | SEntry _ -> false | _ -> true) outs in
+  let rec consec l = match l with a :: (b :: _ as r) -> b = a + 1 && consec r | _ -> true in
+  Printf.sprintf "N:%d:%s:%s:%s:%s" (List.length ids)
+    (match ids with [] -> "-" | a :: _ -> Printf.sprintf "%x" a)
+    (match List.rev ids with [] -> "-" | a :: _ -> Printf.sprintf "%x" a)
+    (if consec ids then "c" else "n")
+    (match refs with [] -> "-" | o :: _ -> show_s o)
+
 (* fold the outputs of a repeated registration into one token:
    N:<accepted>:<first id>:<last id>:<c|n consecutive?>:<first refusal or -> *)
 let show_rep outs =
@@ -137,7 +168,7 @@ let show_rep outs =
 
 let rec take n l = if n = 0 then ([], l) else match l with x :: r -> let (a, b) = take (n-1) r in (x :: a, b) | [] -> ([], [])
 
-let render pops outs =
+let render show show_rep pops outs =
   let rec go pops outs = match pops with
     | [] -> []
     | One _ :: r -> (match outs with o :: outs -> show o :: go r outs | [] -> ["<none>"])
@@ -152,6 +183,6 @@ let () =
       tag := 0;
       let pops = parse toks in
       let ops = List.concat (List.map (fun p -> match p with One o -> [o] | Rep l -> l) pops) in
-      Printf.printf "M %s %s\n" id (render pops (run reg0 ops));
-      Printf.printf "S %s %s\n" id (render pops (srun smap0 ops))
+      Printf.printf "M %s %s\n" id (render show show_rep pops (run reg0 ops));
+      Printf.printf "S %s %s\n" id (render show_s show_rep_s pops (srun sreg0 ops))
     | _ -> ()) (read_lines ic)
